@@ -39,16 +39,32 @@ theorem foldl_reachR {cfg : Cfg} {α : Type} (f : RunSt → α → RunSt)
   | nil => exact Reach.refl _ _
   | cons x t ih => exact (hf init x).trans (ih (f init x))
 
+theorem regStart_reach (cfg : Cfg) (r : RunSt) (known : List Nat) (e c : Nat) :
+    Reach cfg r.s (regStart cfg r known e c).s := by
+  unfold regStart
+  dsimp only
+  split
+  · exact (Reach.one _ _ _).then_step _
+  · exact Reach.one _ _ _
+
+theorem stallStart_s (r : RunSt) (e : Nat) : (stallStart r e).1.s = r.s := by
+  unfold stallStart
+  split
+  · split <;> rfl
+  · rfl
+
+theorem writeStart_reach (cfg : Cfg) (r : RunSt) (e : Nat) : Reach cfg r.s (writeStart cfg r e).1.s := by
+  unfold writeStart
+  dsimp only
+  split <;> (dsimp only; exact Reach.one _ _ _)
+
 theorem doStart_reach (cfg : Cfg) (r : RunSt) (known : List Nat) (e c : Nat) :
     Reach cfg r.s (doStart cfg r known e c).1.s := by
-  have h : ∀ s0 : State, Reach cfg r.s s0 →
-      Reach cfg r.s (step cfg (step cfg s0 (.addQ e c)) (.write e true false)) :=
-    fun s0 h0 => (h0.then_step _).then_step _
   unfold doStart
-  simp only []
-  split <;> split <;> first
-    | exact h _ (Reach.one _ _ _)
-    | exact h _ (Reach.refl _ _)
+  dsimp only
+  split
+  · rw [stallStart_s]; exact regStart_reach cfg r known e c
+  · exact (regStart_reach cfg r known e c).trans (writeStart_reach cfg _ e)
 
 theorem drain_reach (cfg : Cfg) (r : RunSt) (known : List Nat) : Reach cfg r.s (drain cfg r known).1.s := by
   unfold drain
@@ -93,21 +109,51 @@ theorem holdGroup_reach (cfg : Cfg) (r : RunSt) (known es : List Nat) (g : List 
 
 theorem killVictims_reach (cfg : Cfg) (r : RunSt) (vs : List Nat) : Reach cfg r.s (killVictims cfg r vs).s := by
   unfold killVictims
-  exact foldl_reachR _ (fun acc e => by dsimp only; exact (Reach.one _ _ _).then_step _) _ _
+  exact foldl_reachR _ (fun acc e => by dsimp only; exact ((Reach.one _ _ _).then_step _).then_step _) _ _
 
 theorem giveUpAll_reach (cfg : Cfg) (r : RunSt) (vs : List Nat) : Reach cfg r.s (giveUpAll cfg r vs).s := by
   unfold giveUpAll
   exact foldl_reachR _ (fun acc e => by dsimp only; exact Reach.one _ _ _) _ _
 
+theorem settle_reach (cfg : Cfg) (r : RunSt) (known victims : List Nat) (g : List Tok) :
+    Reach cfg r.s (settle cfg r known victims g).1.s := by
+  unfold settle
+  dsimp only
+  refine Reach.trans ?_ (startGroup_reach cfg _ _ _ _)
+  dsimp only
+  exact giveUpAll_reach cfg _ _
+
 theorem killConn_reach (cfg : Cfg) (r : RunSt) (known : List Nat) (c : Nat) (g : List Tok) :
     Reach cfg r.s (killConn cfg r known c g).1.s := by
   unfold killConn
   dsimp only
-  refine Reach.trans ?_ (startGroup_reach cfg _ _ _ _)
+  refine Reach.trans ?_ (settle_reach cfg _ _ _ _)
   dsimp only
-  refine Reach.trans ?_ (giveUpAll_reach cfg _ _)
   refine Reach.trans ?_ (killVictims_reach cfg _ _)
   exact Reach.one cfg r.s (.close c)
+
+theorem openGate_reach (cfg : Cfg) (r : RunSt) (known : List Nat) : Reach cfg r.s (openGate cfg r known).1.s := by
+  unfold openGate
+  dsimp only
+  refine Reach.trans ?_ (drain_reach cfg _ known)
+  refine Reach.trans ?_ (foldl_reach _ ?_ _ _)
+  · exact Reach.refl _ _
+  · intro acc e
+    split <;> (dsimp only; exact Reach.one _ _ _)
+
+theorem failGate_reach (cfg : Cfg) (r : RunSt) (known : List Nat) (k : Nat) (g : List Tok) :
+    Reach cfg r.s (failGate cfg r known k g).1.s := by
+  unfold failGate
+  split
+  · exact Reach.refl _ _
+  · split
+    · dsimp only
+      refine Reach.trans ?_ (settle_reach cfg _ _ _ _)
+      exact killVictims_reach cfg { r with gated := false, held := [] } _
+    · refine Reach.trans ?_ (foldl_reach _ ?_ _ _)
+      · exact Reach.refl _ _
+      · intro acc c
+        exact killConn_reach cfg acc.1 known c g
 
 theorem runOp_reach (cfg : Cfg) (r : RunSt) (known : List Nat) (op : Op) (g : List Tok) :
     Reach cfg r.s (runOp cfg r known op g).1.s := by
@@ -117,21 +163,34 @@ theorem runOp_reach (cfg : Cfg) (r : RunSt) (known : List Nat) (op : Op) (g : Li
   | burst es => exact startGroup_reach _ _ _ _ _
   | hold es => exact holdGroup_reach _ _ _ _ _
   | reply e p =>
-    simp only []
+    dsimp only
     split
-    · exact inject_reach _ _ _ _ _ _
     · exact Reach.refl _ _
+    · split
+      · exact inject_reach _ _ _ _ _ _
+      · exact Reach.refl _ _
   | raw c id p => exact inject_reach _ _ _ _ _ _
   | cancel e =>
-    simp only []
+    dsimp only
     split
     · dsimp only; exact ((Reach.one _ _ _).then_step _).then_step _
+    · split
+      · exact Reach.refl _ _
+      · dsimp only; exact ((Reach.one _ _ _).then_step _).then_step _
     · exact Reach.refl _ _
   | kill c =>
-    simp only []
+    dsimp only
     split
-    · exact killConn_reach _ _ _ _ _
+    · refine Reach.trans ?_ (openGate_reach cfg _ known)
+      exact killConn_reach cfg { r with gated := false } known c g
     · exact Reach.refl _ _
+  | gate => exact Reach.refl _ _
+  | ungate =>
+    dsimp only
+    split
+    · exact openGate_reach _ _ _
+    · exact Reach.refl _ _
+  | fail k => exact failGate_reach _ _ _ _ _
 
 /-- every state the script-level model goes through … -/
 def runStates (cfg : Cfg) (known : List Nat) : RunSt → List Op → List (List Tok) → List State
